@@ -66,6 +66,15 @@ impl DiffFlagDefs {
             _ => return Err(invalid_definition()),
         };
 
+        // Labels are printed with the name of each bit and parsed by looking the names up, so a name
+        // that another bit is currently printed with would make labels mean something else when read back.
+        if let Some((&other_index, _)) = self.by_flag.iter().find(|&(&other_index, &other_name)| other_name == name && other_index != index.value as u32) {
+            return Err(error!(
+                message("difficulty flag name '{name}' is already in use"),
+                primary(str, "already the name of flag {other_index}"),
+            ));
+        }
+
         self.define_flag(name, index.value as _, enable);
         Ok(())
     }
